@@ -10,5 +10,6 @@ CONSTANTS
   MaxGen = 2
   CfgSW = FALSE
   CfgNidl = FALSE
+  CfgSO = FALSE
 INVARIANTS InvC03
 CHECK_DEADLOCK FALSE
